@@ -1,6 +1,7 @@
 package lua
 
 import (
+	"bytes"
 	"context"
 	"fmt"
 	"os"
@@ -111,6 +112,28 @@ func (st LString) Format(f fmt.State, c rune) {
 	}
 }
 
+// formatBytes writes b padded to the width of f, counting bytes as C's printf does.
+func formatBytes(f fmt.State, b []byte) {
+	w, _ := f.Width()
+	n := w - len(b)
+	if n <= 0 {
+		f.Write(b)
+		return
+	}
+	pad := []byte{' '}
+	if f.Flag('0') && !f.Flag('-') {
+		pad[0] = '0'
+	}
+	padding := bytes.Repeat(pad, n)
+	if f.Flag('-') {
+		f.Write(b)
+		f.Write(padding)
+	} else {
+		f.Write(padding)
+		f.Write(b)
+	}
+}
+
 func (nm LNumber) String() string {
 	if isInteger(nm) {
 		return fmt.Sprint(int64(nm))
@@ -125,7 +148,10 @@ func (nm LNumber) Format(f fmt.State, c rune) {
 	switch c {
 	case 'q', 's':
 		defaultFormat(nm.String(), f, c)
-	case 'b', 'c', 'd', 'o', 'x', 'X', 'U':
+	case 'c':
+		// C's %c writes the single byte (unsigned char)n, not the UTF-8 encoding of a rune
+		formatBytes(f, []byte{byte(int64(nm))})
+	case 'b', 'd', 'o', 'x', 'X', 'U':
 		defaultFormat(int64(nm), f, c)
 	case 'e', 'E', 'f', 'F', 'g', 'G':
 		defaultFormat(float64(nm), f, c)
